@@ -16,6 +16,8 @@
 //!   T <tid>                  spawn worker thread <tid>   (thread 0 is the main thread)
 //!   E <seq> <tid> <id> [t]   expand input <id> on thread <tid>; prints an R line.  `t`: as a *token-built*
 //!                            input (every span is the call site: what another macro would hand over)
+//!   X <seqA> <tidA> <idA> <seqB> <tidB> <idB> <seed>   expand two inputs concurrently on two worker threads under
+//!                            a seeded interleaving; prints two R lines and a K line (number of switches)
 //!   P <tid> <n> <seed>       heap perturbation on thread <tid>: n seeded allocations, some kept
 //!   O <tid> <policy> <seed> [<file>:<line>]  (hooked build) order policy + container seed for later expansions on <tid>, optionally for one iteration site only
 //!   A                        (selftest) print the address of a stack variable and of a fresh heap block
@@ -226,9 +228,61 @@ fn guarded_expand(src: &str, shim: Shim, token_built: bool) -> Rendering {
 
 enum Cmd {
     Expand { seq: u64, tid: u32, id: u32, src: std::sync::Arc<String>, token_built: bool },
+    /// one half of a pair of expansions that run *concurrently* on two threads under an
+    /// interleaving chosen by the seeded scheduler (hooked build: switch points are the seam's
+    /// yield points; plain build: there are none, the two simply run one after the other)
+    ExpandCo { seq: u64, tid: u32, id: u32, src: std::sync::Arc<String>, baton: std::sync::Arc<Baton>, me: usize },
     Perturb { n: u32, seed: u64 },
     Order { policy: u8, seed: u64, site: Option<(String, u32)> },
     Quit,
+}
+
+/// Who may run.  Exactly one of the two threads of a pair holds the baton at any time; at a
+/// yield point the holder asks the seeded stream whether to hand it over.
+pub struct Baton {
+    state: std::sync::Mutex<BatonState>,
+    cv: std::sync::Condvar,
+}
+
+struct BatonState {
+    turn: usize,
+    done: [bool; 2],
+    rng: u64,
+    switches: u64,
+}
+
+impl Baton {
+    fn new(seed: u64) -> Baton {
+        Baton { state: std::sync::Mutex::new(BatonState { turn: (seed & 1) as usize, done: [false, false], rng: seed | 1, switches: 0 }), cv: std::sync::Condvar::new() }
+    }
+    fn wait_turn(&self, me: usize) {
+        let mut st = self.state.lock().unwrap();
+        while st.turn != me {
+            st = self.cv.wait(st).unwrap();
+        }
+    }
+    #[allow(dead_code)]
+    fn maybe_switch(&self, me: usize) {
+        let mut st = self.state.lock().unwrap();
+        if st.done[1 - me] {
+            return;
+        }
+        let r = xorshift(&mut st.rng);
+        if r % 3 == 0 {
+            st.turn = 1 - me;
+            st.switches += 1;
+            self.cv.notify_all();
+            while st.turn != me {
+                st = self.cv.wait(st).unwrap();
+            }
+        }
+    }
+    fn finish(&self, me: usize) {
+        let mut st = self.state.lock().unwrap();
+        st.done[me] = true;
+        st.turn = 1 - me;
+        self.cv.notify_all();
+    }
 }
 
 struct ThreadState {
@@ -274,6 +328,31 @@ fn run_cmd(st: &mut ThreadState, cmd: Cmd) -> Option<String> {
                 }
                 b.push('\n');
                 line.push_str(&b);
+            }
+            Some(line)
+        },
+        Cmd::ExpandCo { seq, tid, id, src, baton, me } => {
+            #[cfg(o2o_verif)]
+            {
+                let (p, s, site) = st.order.clone().unwrap_or((0, 0, None));
+                o2o_impl::verif_seam::set_stream(s, o2o_impl::verif_seam::Policy::from_u8(p));
+                if let Some((f, l)) = site {
+                    o2o_impl::verif_seam::set_site_filter(&f, l);
+                }
+                let b = baton.clone();
+                o2o_impl::verif_seam::set_yield_hook(Some(Box::new(move |_label| b.maybe_switch(me))));
+            }
+            baton.wait_turn(me);
+            let r = guarded_expand(&src, st.shim, false);
+            #[cfg(o2o_verif)]
+            o2o_impl::verif_seam::set_yield_hook(None);
+            baton.finish(me);
+            #[allow(unused_mut)]
+            let mut line = format!("R {} {} {} {} {} {}\n", seq, tid, id, r.verdict, esc(&r.text), esc(&r.spans));
+            #[cfg(o2o_verif)]
+            {
+                let (_probes, containers) = o2o_impl::verif_seam::take_probes();
+                line.push_str(&format!("B {} {}\n", seq, containers));
             }
             Some(line)
         },
@@ -402,6 +481,35 @@ fn main() {
                 };
                 let token_built = f.next() == Some("t");
                 dispatch(tid, Cmd::Expand { seq, tid, id, src, token_built }, &threads, &mut out);
+            },
+            Some("X") => {
+                // X <seqA> <tidA> <idA> <seqB> <tidB> <idB> <schedule seed>
+                let v: Vec<u64> = f.map(|x| x.parse().unwrap()).collect();
+                if v.len() != 7 || v[1] == 0 || v[4] == 0 || v[1] == v[4] {
+                    eprintln!("host: bad X record (needs two different worker threads)");
+                    std::process::exit(2);
+                }
+                let src = |id: u32| -> std::sync::Arc<String> {
+                    match inputs.iter().find(|x| x.0 == id) {
+                        Some(x) => x.1.clone(),
+                        None => {
+                            eprintln!("host: unknown input {}", id);
+                            std::process::exit(2);
+                        },
+                    }
+                };
+                let baton = std::sync::Arc::new(Baton::new(v[6]));
+                let ta = threads.iter().find(|t| t.0 == v[1] as u32).expect("thread A");
+                let tb = threads.iter().find(|t| t.0 == v[4] as u32).expect("thread B");
+                ta.1.send(Cmd::ExpandCo { seq: v[0], tid: v[1] as u32, id: v[2] as u32, src: src(v[2] as u32), baton: baton.clone(), me: 0 }).expect("worker gone");
+                tb.1.send(Cmd::ExpandCo { seq: v[3], tid: v[4] as u32, id: v[5] as u32, src: src(v[5] as u32), baton: baton.clone(), me: 1 }).expect("worker gone");
+                // results are printed in a fixed order, whoever finished first
+                let ra = ta.2.recv().expect("worker died");
+                let rb = tb.2.recv().expect("worker died");
+                out.write_all(ra.as_bytes()).unwrap();
+                out.write_all(rb.as_bytes()).unwrap();
+                let sw = baton.state.lock().unwrap().switches;
+                writeln!(out, "K {} {}", v[0], sw).unwrap();
             },
             Some("P") => {
                 let tid: u32 = f.next().unwrap().parse().unwrap();
